@@ -6,7 +6,9 @@ import (
 	"fmt"
 	"math/big"
 	"math/rand/v2"
+	"sort"
 	"strings"
+	"sync"
 
 	"github.com/onflow/crypto"
 	"github.com/onflow/crypto/hash"
@@ -208,6 +210,14 @@ func c01Gen(tier string, r *rand.Rand) []Case {
 			y := new(big.Int).Mod(new(big.Int).Sub(k, x), blsR)
 			mk("key-limb-sparse-agg", c01In{KeyKind: "aggregated", Parts: []string{hx(fixed(x, 32)), hx(fixed(y, 32))}, Hasher: hasherSpec{Kind: "kmac", Tag: "sparse"}, Msg: hx(msgs[(i+1)%len(msgs)]), Derive: d})
 		}
+	}
+	// signatures whose x coordinate is tiny (its 16 leading bits are zero): x + p is then only just above p, the
+	// second encoding of the same residue that a coarse "is it reduced" test lets through.  The messages are
+	// found by search (about 1 signature in 75 000), deterministically, on all cores
+	for i, m := range c01SmallXMessages(3) {
+		d := []string{"valid", "xgep", "negated", "flags:5"}
+		mk("signature-small-x", c01In{KeyKind: "scalar", Scalar: hx(fixed(big.NewInt(c01SmallXKey), 32)), Hasher: hasherSpec{Kind: "kmac", Tag: c01SmallXTag}, Msg: hx(m), Derive: d})
+		_ = i
 	}
 	// identity public key
 	// the identity public key obtained in every way the package can produce one (the cached identity
@@ -630,4 +640,49 @@ func c01Run(c Case) (Result, error) {
 	term := fmt.Sprintf("SigCaseH %s %s %s %s %s %s %s", cqs(hx(fixed(scalar, 32))), cqs(hx(hEnc)), cqbool(in.IdPk), cqs(hx(valid)), cqlist(items), hsrc, cqs(hx(hout)))
 	return Result{Coq: term, Key: string(c.Input), Nontrivial: nontrivial,
 		Obs: map[string]any{"scalar": hx(fixed(scalar, 32)), "H": hx(hEnc), "hasher_output": hx(hout), "sign": hx(valid), "candidates": cands}}, nil
+}
+
+const c01SmallXKey = 0x5eed
+const c01SmallXTag = "small-x"
+
+// c01SmallXMessages searches messages "small-x <i>" (i = 0, 1, ...) whose signature under the key c01SmallXKey
+// has an x coordinate below 0xe0 * 2^360 (bytes 0 and 1 zero apart from the flags); it returns the first `want`
+// of them in the order of i, or fewer when 600 000 candidates were not enough / the library does not sign.
+func c01SmallXMessages(want int) [][]byte {
+	sk, err := crypto.DecodePrivateKey(crypto.BLSBLS12381, fixed(big.NewInt(c01SmallXKey), 32))
+	if err != nil {
+		return nil
+	}
+	const G, chunk = 16, 65536
+	var hits []int
+	for base := 0; base < 600000 && len(hits) < want; base += chunk {
+		var mu sync.Mutex
+		var wg sync.WaitGroup
+		for g := 0; g < G; g++ {
+			wg.Add(1)
+			go func(g int) {
+				defer wg.Done()
+				defer func() { _ = recover() }()
+				hs := crypto.NewExpandMsgXOFKMAC128(c01SmallXTag)
+				for i := base + g; i < base+chunk; i += G {
+					sg, err := sk.Sign([]byte(fmt.Sprintf("small-x %d", i)), hs)
+					if err == nil && len(sg) == 48 && sg[0]&0x1f == 0 && sg[1] == 0 && sg[2] < 0xe0 {
+						mu.Lock()
+						hits = append(hits, i)
+						mu.Unlock()
+					}
+				}
+			}(g)
+		}
+		wg.Wait()
+	}
+	sort.Ints(hits)
+	if len(hits) > want {
+		hits = hits[:want]
+	}
+	var out [][]byte
+	for _, i := range hits {
+		out = append(out, []byte(fmt.Sprintf("small-x %d", i)))
+	}
+	return out
 }
